@@ -339,8 +339,13 @@ def search(ctx, deep):
     for fam in B.FAMS:
         for tau in ([0.0, 0.2, 0.5, 0.8] if fam == 'gumbel' else [0.2, 0.5, 0.8] if fam != 'frank' else [-0.8, -0.3, 0.3, 0.8]):
             cells.append((fam, tau))
+    # Frank next to independence: a valid non-zero theta of tiny magnitude, set directly (tau = theta/9 + O(theta^3))
+    cells += [('frank', ('theta', 1e-8)), ('frank', ('theta', -5e-8))]
     for fam, tau in cells:
-        th = {'clayton': 2 * tau / (1 - tau), 'gumbel': 1 / (1 - tau)}.get(fam)
+        if isinstance(tau, tuple):
+            th, tau = tau[1], tau[1] / 9
+        else:
+            th = {'clayton': 2 * tau / (1 - tau), 'gumbel': 1 / (1 - tau)}.get(fam)
         if th is None:
             f = B.cls_of('frank')()
             f.tau = tau
